@@ -8,9 +8,9 @@ from libertem_blobfinder.common import gridmatching as grm
 
 PROP = "C09"
 LEAN_MODULE = "BlobfinderModel.Properties.C09"
-GEN_FILES = ["Crop", "Blocks"]
+GEN_FILES = ["Crop", "Blocks", "Patterns"]
 FRAGMENTS = ["crop_cell", "sl_bounds",
-             "fast_blocks", "full_blocks", "full_buffers"]
+             "fast_blocks", "full_blocks", "full_buffers", "user_template_io"]
 DRIVER = "drvcorr"
 RULE = ("correspondence: random histories of 2..5 process_frame_fast calls on shared crop buffers; after every "
         "crop_function call the real buffers are compared slot by slot with the model (slots < size: model crop "
